@@ -4,6 +4,15 @@ import os, json
 import vf
 
 LEVEL = "proof"
+CLAIM = dict(cat="proof", design="§3 C13, Appendix A.3",
+   text="Coq theorems over an exact integer model of RandomGenerator (every state word is a multiple of 2^-48, proved to be the binary64 computation: no rounding anywhere), for ALL 64-bit seeds and ALL stream positions: "
+        "state invariant, every value in [0, 1-2^-48] (so -log u is never <= 0), the unrolled 12-step block and the three refill loops equal plain subtract-with-borrow steps (base 2^48, lags 12/5, luxury _pr): the stream "
+        "IS ranlxd2; seeding is the 31-bit shift register, seed 0 = seed 1, only seed mod 2^31 matters, seeding injective on [1,2^31), and two seeds whose first 24 values agree are equal (Marsaglia-Zaman argument); "
+        "restore(dump s) = s and the continued stream is identical. Tie: extracted model vs the real class vs GSL's gsl_rng_ranlxd2 on many seeds, positions across every refill boundary and dump/restore points, bit for bit; "
+        "whole binary: two one-thread runs with the same seed write snapshots whose every dataset and attribute (except the creation-time stamp) is bitwise identical.",
+   note="Trusted: Coq kernel (20 of 21 theorems axiom-free; the binary64-exactness lemma uses Flocq + standard real axioms), extraction, libgsl as third implementation. The whole-binary clause is an observation on the "
+        "sampled configurations (task-based ionization with diffuse field and continuous source, RHD with radiation), not a theorem: it rests on C01 (one thread => one schedule) and on the stream theorems.",
+   technique="Coq proof by induction over the generator state + three-way differential correspondence (model, class, GSL)")
 W = 1 << 48
 P31 = 1 << 31
 HARNESS = os.path.join(vf.VERIF, "harness/c13/rng_harness.cpp")
@@ -420,6 +429,7 @@ def run(ck):
         "int_fast32_t is 64 bit) start from the all-ones state 1-2^-48 in every word (Example ex_degenerate_seed) - a valid but poor stream",
         "the design sketch's step_injective is false (C13_step_injective_refuted: two well-formed states with one successor); nothing depends on it",
     ]
+    whole_binary_determinism(ck)
     ck.resolve_breaks_without_input()
 
 
@@ -440,3 +450,53 @@ def replay(ck, rp):
     print("\n".join(l[:200] for l in out[:60]))
     print("REPLAY:", why or "property holds on this input")
     return 1 if why else 0
+
+
+def whole_binary_determinism(ck):
+    """two one-thread runs of the same problem with the same seed: every dataset/attribute of every snapshot equal"""
+    import shutil
+    d = ck.scratch
+    okb, logb = vf.repo_ninja(["CMacIonize"])
+    if not okb:
+        ck.breaks.append("whole binary does not build: " + logb[-800:])
+        return
+    exe = os.path.join(vf.REPOBUILD, "rundir", "CMacIonize")
+    dig = os.path.join(d, "h5digest")
+    rc, out = vf.sh(["g++", "-O1", "-I/usr/include/hdf5/serial", os.path.join(vf.VERIF, "harness/c13/h5digest.cpp"), "-o", dig, "-lhdf5_serial"], timeout=300)
+    if rc != 0:
+        ck.breaks.append("h5digest does not build: " + out[-500:])
+        return
+    cfgs = [("ion.param", ["--task-based"]), ("rhd.param", ["--task-based-rhd", "--number-of-steps", "2"])]
+    if not ck.quick:
+        cfgs.append(("o7.param", ["--task-based"]))
+    ncomp = 0
+    for cfg, args in cfgs:
+        digs = []
+        for rep in (0, 1):
+            w = os.path.join(d, "wb_%s_%d" % (cfg, rep))
+            shutil.rmtree(w, ignore_errors=True)
+            os.makedirs(w)
+            for f in os.listdir(os.path.join(vf.VERIF, "harness", "configs")):
+                shutil.copy(os.path.join(vf.VERIF, "harness", "configs", f), w)
+            rc, out = vf.sh([exe] + args + ["--params", cfg, "--threads", "1", "--dirty"], cwd=w, timeout=600)
+            if rc != 0:
+                ck.breaks.append("whole-binary run %s exits with %d" % (cfg, rc))
+                return
+            res = {}
+            for f in sorted(os.listdir(w)):
+                if f.endswith(".hdf5"):
+                    rc2, o2 = vf.sh([dig, os.path.join(w, f)], timeout=120)
+                    res[f] = [l for l in o2.splitlines() if "@Creation time" not in l]
+            digs.append(res)
+            shutil.rmtree(w, ignore_errors=True)
+        if digs[0].keys() != digs[1].keys():
+            ck.violation("C13: two one-thread runs of %s with the same seed wrote different snapshot files" % cfg, {"config": cfg, "files": [sorted(x) for x in digs]}, key={"kind": "snapshot_nondeterministic", "config": cfg})
+            continue
+        for f in digs[0]:
+            ncomp += len(digs[0][f])
+            if digs[0][f] != digs[1][f]:
+                diff = [(a, b) for a, b in zip(digs[0][f], digs[1][f]) if a != b][:5]
+                ck.violation("C13: two one-thread runs of %s with the same seed differ in snapshot %s: %s" % (cfg, f, diff), {"config": cfg, "file": f, "diff": diff},
+                             key={"kind": "snapshot_nondeterministic", "config": cfg})
+    ck.coverage["whole_binary_objects_compared"] = ncomp
+    ck.coverage["whole_binary_configs"] = [c for c, _ in cfgs]
